@@ -35,7 +35,10 @@ const PAYLOADS: [&str; 26] = [
     "<\u{1}MK/>",
     "} MK = {</style><MK/>",
 ];
-const CHANNELS: [&str; 7] = ["plain", "quoted", "tag", "legend-name", "legend-decl", "tag-after-identifier", "legend-name-after-identifier"];
+const CHANNELS: [&str; 11] = [
+    "plain", "quoted", "tag", "legend-name", "legend-decl", "tag-after-identifier", "legend-name-after-identifier",
+    "plain-after-non-ascii", "quoted-after-non-ascii", "legend-decl-repeated-class", "legend-decl-third-entry",
+];
 const CONTEXTS: [&str; 4] = ["alone", "in-box", "touching-line", "two-rows"];
 
 fn build(channel: usize, context: usize, payload: &str) -> String {
@@ -47,6 +50,11 @@ fn build(channel: usize, context: usize, payload: &str) -> String {
         // a valid identifier first: a grammar that accepts a valid prefix must still not let the rest through
         6 => return format!("{}# Legend:\nzz{} = {{fill:red}}\n", ctx_diagram(context), payload),
         5 => format!("{{zz{}}}", payload),
+        // multi-byte characters in the same text run before the payload (2-, 3- and 4-byte encodings)
+        7 => format!("Диаграмма потоков данных 一二三 𝔘𝔫𝔦 é {}", payload),
+        8 => format!("\"Диаграмма 一二三 𝔘 é {}\"", payload),
+        9 => return format!("{}# Legend:\nzz = {{fill:red}}\nzz = {{{}}}\n", ctx_diagram(context), payload),
+        10 => return format!("{}# Legend:\nza = {{fill:red}}\nzb = {{x:1}}\nzz = {{{}}}\nzc = {{y:2}}\n", ctx_diagram(context), payload),
         _ => return format!("{}# Legend:\nzz = {{{}}}\n", ctx_diagram(context), payload),
     };
     match context {
